@@ -23,7 +23,7 @@ def run(tier, chk):
     common.run_sim(chk, wd, scns, "C03_Trace", shards=14, sig_of=sig)
     chk.exhaustive = True
     chk.distinct_nontrivial = len(scns)
-    chk.rule = (f"all sequences up to length {n} over the 11-letter request-stream alphabet x endings (FIN, RESET, open) x chunkings (one chunk, per frame, per byte) "
+    chk.rule = (f"all sequences up to length {n} over the 13-letter (incl. two truncated frames) request-stream alphabet x endings (FIN, RESET, open) x chunkings (one chunk, per frame, per byte) "
                 "x (server, client); every recorded execution validated by C03_Trace at every quiescent point")
     chk.assumptions = ["simquic follows Quinn's stream semantics (reset discards unread data and is reported once)",
                        "client: FIN before HEADERS and PUSH_PROMISE are unconstrained by the property (R2)"]
